@@ -288,12 +288,140 @@ fn job(ctx: &Ctx, job: usize, jobs: usize, thorough: bool) -> Stats {
     st
 }
 
+/// LARGE graphs (17 .. 300 vertices) with --all: the emitted formula is quantifier-free, so it can
+/// be evaluated on any vertex set. Sampled sets — empty, singletons, adjacent and non-adjacent
+/// pairs, greedy maximal cliques, those cliques plus one more vertex, random small sets — must be
+/// models exactly when they are cliques.
+fn large_graph_case(ctx: &Ctx, st: &mut Stats, n: usize, density_pct: u64, undirected: bool, k: usize) {
+    let mut rng = Rng::stream(ctx.seed, "C16.large", (n * 1000 + k) as u64);
+    let names: Vec<String> = (0..n).map(|i| format!("n{}", i)).collect();
+    let mut adj = vec![vec![false; n]; n];
+    let mut lines: Vec<String> = Vec::new();
+    for i in 0..n {
+        for j in (i + 1)..n {
+            if rng.below(100) < density_pct {
+                adj[i][j] = true;
+                adj[j][i] = true;
+                if undirected {
+                    lines.push(if rng.chance(1, 2) { format!("{},{}", names[i], names[j]) } else { format!("{},{}", names[j], names[i]) });
+                } else {
+                    lines.push(format!("{},{}", names[i], names[j]));
+                    lines.push(format!("{},{}", names[j], names[i]));
+                }
+            } else if !undirected && rng.chance(1, 8) {
+                lines.push(format!("{},{}", names[i], names[j])); // one direction only: not an edge
+            }
+        }
+    }
+    rng.shuffle(&mut lines);
+    let csv = lines.join("\n") + "\n";
+    let dir = ctx.fresh_dir(&format!("c16-large-{}-{}", n, k));
+    let _ = std::fs::create_dir_all(&dir);
+    let _ = std::fs::write(dir.join("graph.csv"), &csv);
+    let mut args: Vec<String> = vec!["-a".into()];
+    if undirected {
+        args.push("-u".into());
+    }
+    args.push("graph.csv".into());
+    st.evals += 1;
+    let out = cli::run(&ctx.bin("max_clique_gen"), &args, None, Some(&dir), None, Duration::from_secs(120));
+    let _ = std::fs::remove_dir_all(&dir);
+    let case = || json!({"kind": "large", "n": n, "density": density_pct, "undirected": undirected, "k": k, "seed": ctx.seed});
+    let desc = format!("max_clique_gen -a{} on a random graph with {} vertices and {} records", if undirected { " -u" } else { "" }, n, lines.len());
+    if out.timed_out {
+        st.bump("watchdog(inconclusive case)");
+        return;
+    }
+    if !out.ok() {
+        st.violate("c16.run", format!("C16:generator-failed:{}", out.panic_site()), format!("{}: {}", desc, out.status_string()), case());
+        return;
+    }
+    let text = out.stdout_str();
+    let prob = match refsyn::parse_text(&text).map_err(|e| format!("{:?}", e)).and_then(|a| crate::solve3::compile(&a)) {
+        Ok(p) => p,
+        Err(e) => {
+            st.violate("c16.well-formed", "C16:not-a-formula".into(), format!("{}: the output cannot be read: {}", desc, e.chars().take(300).collect::<String>()), case());
+            return;
+        }
+    };
+    if let Some(bad) = prob.names.iter().find(|x| !names.contains(x)) {
+        st.violate("c16.variables", "C16:free-variable-is-not-a-vertex".into(), format!("{}: the formula mentions `{}`, which is not a vertex", desc, bad), case());
+        return;
+    }
+    let is_clique = |s: &[usize]| s.iter().enumerate().all(|(a, i)| s[a + 1..].iter().all(|j| adj[*i][*j]));
+    let mut sets: Vec<Vec<usize>> = vec![vec![]];
+    sets.extend((0..n).map(|i| vec![i]));
+    for _ in 0..400 {
+        let (i, j) = (rng.usize(n), rng.usize(n));
+        if i != j {
+            sets.push(vec![i, j]);
+        }
+        // a greedy maximal clique from a random start, and the same plus one more vertex
+        let mut c = vec![rng.usize(n)];
+        let mut order: Vec<usize> = (0..n).collect();
+        rng.shuffle(&mut order);
+        for v in order {
+            if !c.contains(&v) && c.iter().all(|u| adj[*u][v]) {
+                c.push(v);
+            }
+        }
+        sets.push(c.clone());
+        let extra = rng.usize(n);
+        if !c.contains(&extra) {
+            c.push(extra);
+            sets.push(c);
+        }
+        let size = 3 + rng.usize(3);
+        let r: Vec<usize> = (0..size).map(|_| rng.usize(n)).collect::<std::collections::BTreeSet<_>>().into_iter().collect();
+        sets.push(r);
+    }
+    let (mut cliques, mut others) = (0u64, 0u64);
+    for s in &sets {
+        let mut asg = vec![false; prob.names.len()];
+        for v in s {
+            if let Some(ix) = prob.index.get(&names[*v]) {
+                asg[*ix] = true;
+            }
+        }
+        let model = crate::solve3::eval_total(&prob, &asg);
+        let want = is_clique(s);
+        if model != want {
+            st.violate("c16.models", if want { "C16:clique-is-not-a-model".to_string() } else { "C16:model-is-not-a-clique".to_string() }, format!("{}: the vertex set {:?} is {} but the formula is {} there", desc, s.iter().map(|v| names[*v].clone()).collect::<Vec<_>>(), if want { "a clique" } else { "not a clique" }, model), case());
+            return;
+        }
+        if want {
+            cliques += 1;
+        } else {
+            others += 1;
+        }
+    }
+    st.add("vertex_sets_probed_on_large_graphs", cliques + others);
+    st.bump("large_graphs");
+    st.max("max_vertices", n as u64);
+    if cliques > 0 && others > 0 {
+        st.nt.insert(mix(0x16_1a, (n * 100 + k) as u64));
+    }
+}
+
 pub fn run(ctx: &Ctx) -> (Stats, Spec) {
     let thorough = ctx.tier == crate::report::Tier::Thorough;
     let jobs = 16;
     let parts = util::par_jobs(jobs, |j| job(ctx, j, jobs, thorough));
     let mut st = crate::report::merge_all(parts);
     st.exhaustive.push(if thorough { "all 64 digraphs on 3 vertices and all 4096 on 4 vertices x {-u} x {-a}".into() } else { "all 64 digraphs on 3 vertices (and every 4th on 4 vertices) x {-u} x {-a}".into() });
+    // large graphs, --all only (see large_graph_case)
+    let large: Vec<(usize, u64, bool)> = if thorough {
+        vec![(17, 50, true), (33, 40, false), (65, 30, true), (130, 90, false), (257, 95, true), (300, 10, true), (300, 50, false), (100, 70, true), (64, 60, false), (200, 98, true)]
+    } else {
+        vec![(17, 50, true), (40, 40, false), (65, 30, true), (130, 90, false), (257, 95, true), (300, 10, true)]
+    };
+    let parts = util::par_jobs(large.len(), |j| {
+        let mut s = Stats::new();
+        let (n, d, u) = large[j];
+        large_graph_case(ctx, &mut s, n, d, u, j);
+        s
+    });
+    st.merge(crate::report::merge_all(parts));
     // fixed: empty graph, complete graphs, one-directional edges, the adversarial name pair {x, v_x}
     let mut k = 0;
     for csv in ["", "a,b\n", "a,b\nb,a\n", "a,a\n", "a,b\nb,c\nc,a\n", "a,b\nb,a\nb,c\nc,b\na,c\nc,a\n", "a,v_a\n", "a,v_a\nv_a,a\n", "x,v_x\nv_x,y\ny,x\n", "v_1,v_2\nv_2,v_v_1\n"] {
@@ -344,13 +472,14 @@ pub fn run(ctx: &Ctx) -> (Stats, Spec) {
         }
     }
     let spec = Spec {
-        rule: "edge lists: every digraph on 3 vertices (4 vertices: every 4th [quick] / all [thorough]) x {-u} x {-a}, random graphs on 5-6 (thorough: also 7-8) vertices with self-loops, duplicates, one-directional edges, shuffled rows, LF / CRLF line ends, missing final newline and quoted fields, empty and complete graphs; inputs beyond 8 KiB (thousands of duplicate records, vertex names of 4-5 thousand characters); vertex names plain, with ' _ digits, non-ASCII, the pair {x, v_x}, names that differ only in case ({a, A, ab, Ab, aB, AB}, {é, É, ı, i, I, İ}), and name families that collide under string concatenation / prefixing ({a, b, a_b, b_a, a_b_a}, {v, v_v, v_, _v}, {n, n1, n10, n_1}); input via file or stdin, output via stdout or file. The emitted text is parsed and evaluated by the reference; for EVERY subset of the vertices 'is a model' must equal 'is a (maximum) clique'. distinct = (edge set, flags); non-trivial = at least one edge and one non-adjacent pair.".into(),
+        rule: "edge lists: every digraph on 3 vertices (4 vertices: every 4th [quick] / all [thorough]) x {-u} x {-a}, random graphs on 5-6 (thorough: also 7-8) vertices with self-loops, duplicates, one-directional edges, shuffled rows, LF / CRLF line ends, missing final newline and quoted fields, empty and complete graphs; inputs beyond 8 KiB (thousands of duplicate records, vertex names of 4-5 thousand characters); vertex names plain, with ' _ digits, non-ASCII, the pair {x, v_x}, names that differ only in case ({a, A, ab, Ab, aB, AB}, {é, É, ı, i, I, İ}), and name families that collide under string concatenation / prefixing ({a, b, a_b, b_a, a_b_a}, {v, v_v, v_, _v}, {n, n1, n10, n_1}); input via file or stdin, output via stdout or file. LARGE random graphs (17 .. 300 vertices, sparse to nearly complete, -u and directed with one-directional records) with --all: ~1 500 sampled vertex sets each (empty, singletons, pairs, greedy maximal cliques, those plus one vertex, random small sets) must be models exactly when they are cliques. The emitted text is parsed and evaluated by the reference; for EVERY subset of the vertices 'is a model' must equal 'is a (maximum) clique'. distinct = (edge set, flags); non-trivial = at least one edge and one non-adjacent pair.".into(),
         assumptions: vec![
             "vertex names are identifiers that are not keywords of the formula language (as the statement says)".into(),
             "adjacency: with -u an edge in either direction; without it both directions must be present; self-loops are ignored".into(),
         ],
         floors: vec![
             ("exhaustive_cases".into(), 256, "exhaustive part incomplete".into()),
+            ("large_graphs".into(), 5, "large graphs not exercised".into()),
             ("flags_u0_a0".into(), 50, "plain flags hardly exercised".into()),
             ("flags_u1_a1".into(), 50, "-u -a hardly exercised".into()),
             ("io_1".into(), 20, "stdin input hardly exercised".into()),
@@ -365,6 +494,13 @@ pub fn run(ctx: &Ctx) -> (Stats, Spec) {
 }
 
 pub fn replay(ctx: &Ctx, _monitor: &str, case: &Value, st: &mut Stats) {
+    if case.get("kind").and_then(|k| k.as_str()) == Some("large") {
+        let mut c2 = ctx.clone();
+        c2.seed = case.get("seed").and_then(|j| j.as_u64()).unwrap_or(ctx.seed);
+        let g = |k: &str| case.get(k).and_then(|j| j.as_u64()).unwrap_or(0);
+        large_graph_case(&c2, st, g("n").max(2) as usize, g("density"), case.get("undirected").and_then(|b| b.as_bool()).unwrap_or(true), g("k") as usize);
+        return;
+    }
     let c = Case {
         csv: case.get("csv").and_then(|c| c.as_str()).unwrap_or("").to_string(),
         undirected: case.get("undirected").and_then(|b| b.as_bool()).unwrap_or(false),
